@@ -278,6 +278,19 @@ func globMatch(pat, s string) bool {
 
 func verifDir() string { return envOr("VERIF_DIR", "/verif") }
 
+// outDir is where evidence/ and replays/ are written (VERIF_OUT_DIR redirects them when a
+// check is pointed at a scratch copy of the repository).
+func outDir() string { return envOr("VERIF_OUT_DIR", verifDir()) }
+
+// OutDir is exported for harnesses with stages of their own.
+func OutDir() string { return outDir() }
+
+// RepoDir is the tree under test.
+func RepoDir() string { return envOr("VERIF_REPO", "/repo") }
+
+// ScratchDir is the per-run scratch directory created by vcheck (removed on exit).
+func ScratchDir() string { return envOr("VERIF_SCRATCH_DIR", os.TempDir()) }
+
 func parentMain(property, tier string, register func(r *Registry)) int {
 	start := time.Now()
 	seed, _ := strconv.Atoi(envOr("VERIF_SEED", "0"))
@@ -476,7 +489,7 @@ func parentMain(property, tier string, register func(r *Registry)) int {
 	exit := 0
 	var knownHit []string
 	var newViol []map[string]any
-	os.MkdirAll(filepath.Join(verifDir(), "replays"), 0o755)
+	os.MkdirAll(filepath.Join(outDir(), "replays"), 0o755)
 	printedKnown := map[string]bool{}
 	unknownCount := 0
 	for _, v := range uniq {
@@ -505,7 +518,7 @@ func parentMain(property, tier string, register func(r *Registry)) int {
 			rf.Choices = []int{}
 		}
 		h := sha1.Sum([]byte(full))
-		path := filepath.Join(verifDir(), "replays", fmt.Sprintf("%s-%x.json", property, h[:6]))
+		path := filepath.Join(outDir(), "replays", fmt.Sprintf("%s-%x.json", property, h[:6]))
 		b, _ := json.MarshalIndent(rf, "", " ")
 		os.WriteFile(path, b, 0o644)
 		// re-execute in fresh processes before believing it (crashes: twice, others: 5 times)
@@ -621,7 +634,7 @@ func parentMain(property, tier string, register func(r *Registry)) int {
 	if r.Assumptions == nil {
 		ev["assumptions"] = []string{}
 	}
-	evDir := filepath.Join(verifDir(), "evidence")
+	evDir := filepath.Join(outDir(), "evidence")
 	os.MkdirAll(evDir, 0o755)
 	b, _ := json.MarshalIndent(ev, "", " ")
 	if err := os.WriteFile(filepath.Join(evDir, property+".json"), b, 0o644); err != nil {
